@@ -428,6 +428,27 @@ def gen_exchange(rng):
     return case
 
 
+def normalize_causality(case):
+    """The origin's FIN is part of the schedule only where the protocol makes it part of the message (read-until-close
+    body, truncated message): a server that silently drops a keep-alive connection races with the next request whatever the
+    segmentation — that race is the environment's.  Likewise nothing follows a complete response until the next request
+    has been sent.  Applied by C02's implementation runner to every case (also to shrunk ones)."""
+    client = unhx(case["client_hex"])
+    rs = []
+    cm = [m["method"] for m in R.parse_requests(client).messages]
+    for k, r in enumerate(case["resps"]):
+        p = R.parse_responses(unhx(r["data_hex"]), [cm[k]] if k < len(cm) else None, eof=True)
+        finals = [m for m in p.messages if not m["interim"]]
+        complete = bool(finals) and finals[0]["framing"] != "eof"
+        data = unhx(r["data_hex"])
+        if complete:
+            data = data[:finals[0]["end"]]
+        open_ended = (finals[0]["framing"] == "eof") if finals else (p.stop is not None and p.stop[0] == "incomplete")
+        rs.append({"data_hex": hx(data), "close": bool(r.get("close")) and open_ended})
+    c = dict(case); c["resps"] = rs
+    return c
+
+
 def gen_schedule(rng, case, kind=None):
     """fills ccuts / scuts / sched"""
     client = unhx(case["client_hex"])
@@ -440,22 +461,7 @@ def gen_schedule(rng, case, kind=None):
         return sorted(rng.sample(range(1, len(b)), k)) if k else []
     c["ccuts"] = cuts(client)
     c["sched"] = [rng.randint(0, 1) for _ in range(rng.pick([0, 8, 40]))]
-    # The origin's FIN is part of the schedule only where the protocol makes it part of the message (read-until-close
-    # body, incomplete message).  A server that silently drops a keep-alive connection races with the next request
-    # whatever the segmentation — that race is the environment's, not a property of how streams are split.
-    rs = []
-    cm = [m["method"] for m in R.parse_requests(client).messages]
-    for k, r in enumerate(case["resps"]):
-        p = R.parse_responses(unhx(r["data_hex"]), [cm[k]] if k < len(cm) else None, eof=True)
-        finals = [m for m in p.messages if not m["interim"]]
-        complete = bool(finals) and finals[0]["framing"] != "eof"
-        data = unhx(r["data_hex"])
-        if complete:
-            # causality: nothing follows the response until the next request has been sent
-            data = data[:finals[0]["end"]]
-        # read-until-close body / truncated message
-        open_ended = (finals[0]["framing"] == "eof") if finals else (p.stop is not None and p.stop[0] == "incomplete")
-        rs.append({"data_hex": hx(data), "close": bool(r.get("close")) and open_ended})
+    rs = normalize_causality(case)["resps"]
     c["resps"] = rs
     c["scuts"] = [cuts(unhx(r["data_hex"])) for r in rs]
     return c
